@@ -114,6 +114,19 @@ func New(log *Log) *Schema {
 
 var _ graphql.ExecutableSchema = (*Schema)(nil)
 
+type logKey struct{}
+
+// WithLog makes events of operations run under ctx go to l instead of the schema's log
+// (several concurrent requests on one executor, each with its own log).
+func WithLog(ctx context.Context, l *Log) context.Context { return context.WithValue(ctx, logKey{}, l) }
+
+func (s *Schema) log(ctx context.Context) *Log {
+	if l, ok := ctx.Value(logKey{}).(*Log); ok && l != nil {
+		return l
+	}
+	return s.Log
+}
+
 func (s *Schema) Schema() *ast.Schema { return s.schema }
 
 func (s *Schema) Complexity(ctx context.Context, typeName, field string, child int, args map[string]any) (int, bool) {
@@ -217,6 +230,13 @@ func (s *Schema) execRoot(ctx context.Context, object string) *graphql.Response 
 			continue
 		}
 		def := s.schema.Types[object].Fields.ForName(f.Name)
+		if def == nil {
+			// only reachable when validation let an unknown field through (generated code
+			// panics with "unknown field" here)
+			s.log(ctx).Add("resolver:%s.%s(UNKNOWN-FIELD)", object, f.Name)
+			buf.WriteString("null")
+			continue
+		}
 		fc := &graphql.FieldContext{Object: object, Field: f, IsResolver: true, IsMethod: true}
 		fctx := graphql.WithFieldContext(ctx, fc)
 		args := f.ArgumentMap(opCtx.Variables)
@@ -225,15 +245,15 @@ func (s *Schema) execRoot(ctx context.Context, object string) *graphql.Response 
 		func() {
 			defer func() {
 				if r := recover(); r != nil {
-					s.Log.Add("recovered:%s.%s", object, f.Name)
+					s.log(ctx).Add("recovered:%s.%s", object, f.Name)
 					graphql.AddError(fctx, graphql.Recover(fctx, r))
 					out = "null"
 				}
 			}()
 			m := opCtx.RootResolverMiddleware(fctx, func(rctx context.Context) graphql.Marshaler {
-				s.Log.Add("rootfield:%s.%s", object, f.Name)
+				s.log(ctx).Add("rootfield:%s.%s", object, f.Name)
 				res, err := opCtx.ResolverMiddleware(rctx, func(rctx context.Context) (any, error) {
-					s.Log.Add("resolver:%s.%s(%s)", object, f.Name, fmtArgs(args))
+					s.log(ctx).Add("resolver:%s.%s(%s)", object, f.Name, fmtArgs(args))
 					if s.Hook != nil {
 						s.Hook(rctx, object, f.Name, args)
 					}
@@ -272,7 +292,7 @@ func (s *Schema) execRoot(ctx context.Context, object string) *graphql.Response 
 
 func (s *Schema) Exec(ctx context.Context) graphql.ResponseHandler {
 	opCtx := graphql.GetOperationContext(ctx)
-	s.Log.Add("exec:%s", opCtx.Operation.Operation)
+	s.log(ctx).Add("exec:%s", opCtx.Operation.Operation)
 	switch opCtx.Operation.Operation {
 	case ast.Query, ast.Mutation:
 		obj := "Query"
@@ -284,7 +304,7 @@ func (s *Schema) Exec(ctx context.Context) graphql.ResponseHandler {
 			call++
 			if call == 1 {
 				r := s.execRoot(ctx, obj)
-				s.Log.Add("payload:%s", r.Data)
+				s.log(ctx).Add("payload:%s", r.Data)
 				if len(s.Incremental) > 0 {
 					r.HasNext = new(bool)
 					*r.HasNext = true
@@ -296,7 +316,7 @@ func (s *Schema) Exec(ctx context.Context) graphql.ResponseHandler {
 				if s.IncHook != nil {
 					s.IncHook(k)
 				}
-				s.Log.Add("payload:%s", s.Incremental[k])
+				s.log(ctx).Add("payload:%s", s.Incremental[k])
 				hn := k+1 < len(s.Incremental)
 				return &graphql.Response{Data: []byte(s.Incremental[k]), Path: ast.Path{ast.PathName("a")}, HasNext: &hn}
 			}
@@ -309,7 +329,7 @@ func (s *Schema) Exec(ctx context.Context) graphql.ResponseHandler {
 		}
 		f := fields[0]
 		args := f.ArgumentMap(opCtx.Variables)
-		s.Log.Add("resolver:Subscription.%s(%s)", f.Name, fmtArgs(args))
+		s.log(ctx).Add("resolver:Subscription.%s(%s)", f.Name, fmtArgs(args))
 		call := 0
 		return func(ctx context.Context) *graphql.Response {
 			if s.Sub == nil {
@@ -324,7 +344,7 @@ func (s *Schema) Exec(ctx context.Context) graphql.ResponseHandler {
 				if step.Raw != "" {
 					d = fmt.Sprintf("{%s:%s}", kb, step.Raw)
 				}
-				s.Log.Add("payload:%s", d)
+				s.log(ctx).Add("payload:%s", d)
 				return &graphql.Response{Data: []byte(d)}
 			case "error":
 				graphql.AddError(ctx, fmt.Errorf("subscription error"))
